@@ -40,7 +40,9 @@ pub fn one_chain(ctx: &WorkerCtx, rep: &mut WorkerReport, case_seed: u64, rounds
     let (net, _) = net_for_shard(ctx.shard);
     let mut rng = crate::rng::Rng::new(case_seed);
     let mut w = World::new(case_seed, rpc::chain_id_for(net));
-    let scale = scale_world(&mut w, case_seed, true, ctx.thorough());
+    // chains of 65 000+ blocks (a gigabyte per uncommitted instance, and every round replays them on a
+    // fresh twin): one worker in eight draws them
+    let scale = scale_world(&mut w, case_seed, true, ctx.thorough() && ctx.shard % 8 == 3);
     rep.set_add("scale_profiles", scale);
     w.profile.p_empty_block = 25;
     let mut r = new_driver("C01");
@@ -381,7 +383,10 @@ pub fn worker(ctx: &WorkerCtx) -> WorkerReport {
     crate::setup_env(net, traces);
     let mut rep = WorkerReport::default();
     let mut rng = ctx.rng();
-    let (chains, rounds) = if ctx.thorough() { (10, 5) } else { (2, 3) };
+    let (mut chains, rounds) = if ctx.thorough() { (10, 5) } else { (2, 3) };
+    if ctx.thorough() && ctx.shard % 8 == 3 {
+        chains = 5; // the workers that may draw 65 000-block chains
+    }
     if let Some(cs) = std::env::var("VH_CASE_SEED").ok().and_then(|s| s.parse::<u64>().ok()) {
         // debugging aid: one recorded case only
         one_chain(ctx, &mut rep, cs, rounds);
